@@ -70,6 +70,22 @@ deriving Repr
 
 def St.ev (s : St) (e : Ev) : St := { s with log := e :: s.log }
 
+/-! field setters (the model's functions are written with these so that proofs can reason
+    field by field) -/
+def St.setFlag (s : St) (b : Bool) : St := { s with c := { s.c with inTracingSection := b } }
+def St.setEnabled (s : St) (b : Bool) : St := { s with c := { s.c with isTracingEnabled := b } }
+def St.setUseCur (s : St) (b : Bool) : St := { s with c := { s.c with useCurLastEventTs := b } }
+def St.setCurTs (s : St) (v : Nat) : St := { s with c := { s.c with curLastEventTs := v } }
+def St.setAt (s : St) (n : Nat) : St := { s with c := { s.c with at_ := n } }
+def St.setOpen (s : St) (b : Bool) : St := { s with c := { s.c with packetIsOpen := b } }
+def St.setOffContent (s : St) (n : Nat) : St := { s with c := { s.c with offContent := n } }
+def St.setContentSize (s : St) (n : Nat) : St := { s with c := { s.c with contentSize := n } }
+def St.setSeqNum (s : St) (n : Nat) : St := { s with c := { s.c with sequenceNumber := n } }
+def St.setDiscarded (s : St) (n : Nat) : St := { s with c := { s.c with eventsDiscarded := n } }
+def St.setPacketSize (s : St) (n : Nat) : St := { s with c := { s.c with packetSize := n } }
+def St.halt (s : St) : St := { s with halted := true }
+def St.setPlat (s : St) (p : Plat) : St := { s with p := p }
+
 /-- `packet_is_full` l.95 -/
 def Ctx.isFull (c : Ctx) : Bool := c.at_ == c.packetSize
 /-- `packet_is_empty` l.102 -/
@@ -81,17 +97,16 @@ def rtInit (bytes : Nat) (p : Plat) : St :=
 
 /-- `packet_set_buf` l.141-154: a fresh (zero-filled) buffer of `bytes` bytes -/
 def setBuf (bytes : Nat) (s : St) : St :=
-  let c := s.c
-  let c := if c.at_ == c.packetSize then { c with at_ := u32 (bytes * 8) } else c
-  { s with buf := List.replicate bytes 0, c := { c with packetSize := u32 (bytes * 8) } }
+  let s := if s.c.at_ == s.c.packetSize then s.setAt (u32 (bytes * 8)) else s
+  { (s.setPacketSize (u32 (bytes * 8))) with buf := List.replicate bytes 0 }
 
 /-- entry of any platform callback: log it, apply a scripted toggle of `enable_tracing` -/
 def cbEnter (k : CbKind) (s : St) : St :=
   let seq := s.p.cbSeq
   let s := s.ev (.cb k seq s.c.inTracingSection s.c.packetIsOpen)
-  let s := { s with p := { s.p with cbSeq := seq + 1 } }
+  let s := s.setPlat { s.p with cbSeq := seq + 1 }
   match s.p.toggles.lookup seq with
-  | some b => { s with c := { s.c with isTracingEnabled := b } }
+  | some b => s.setEnabled b
   | none => s
 
 /-- the clock source callback; returns the value converted to the clock's C type -/
@@ -100,21 +115,27 @@ def cbClock (clk : Clock) (s : St) : Nat × St :=
   let inc := s.p.clockIncs.headD 1
   let t := s.p.clock + inc
   let v := (t % 2 ^ clk.ctype.width)
-  let s := { s with p := { s.p with clock := t, clockIncs := s.p.clockIncs.tail } }
+  let s := s.setPlat { s.p with clock := t, clockIncs := s.p.clockIncs.tail }
   (v, (s.ev (.clockRead v)).ev (.cbExit .clock s.c.inTracingSection))
 
 def cbFull (s : St) : Bool × St :=
   let s := cbEnter .full s
   let a := s.p.fullAnswers.headD false
-  (a, ({ s with p := { s.p with fullAnswers := s.p.fullAnswers.tail } }).ev (.cbExit .full s.c.inTracingSection))
+  (a, (s.setPlat { s.p with fullAnswers := s.p.fullAnswers.tail }).ev (.cbExit .full s.c.inTracingSection))
+
+/-- result of a serialisation pass installed into the context -/
+def St.setSer (s : St) (buf : Buf) (at_ : Nat) (saved : List (String × Nat)) (evs : List Ev) : St :=
+  { s with buf := buf, c := { s.c with at_ := at_, saved := saved }, log := evs ++ s.log }
+
+def installSer (r : SerSt) (s : St) : St :=
+  let evs := r.stores.map fun (o, n) => Ev.store o n s.c.inTracingSection s.c.packetIsOpen
+  let s := s.setSer r.buf r.at_ r.saved evs
+  if r.oob then (s.ev .oob).halt else s
 
 /-- run a serialisation pass against the context: copies `at`/buffer in and out, logs stores
     with the current flag, halts on an out-of-bounds store -/
 def runSer (f : SerSt → SerSt) (s : St) : St :=
-  let r := f { buf := s.buf, at_ := s.c.at_, saved := s.c.saved, stores := [], oob := false, leaves := [] }
-  let evs := r.stores.map fun (o, n) => Ev.store o n s.c.inTracingSection s.c.packetIsOpen
-  let s := { s with buf := r.buf, c := { s.c with at_ := r.at_, saved := r.saved }, log := evs ++ s.log }
-  if r.oob then { (s.ev .oob) with halted := true } else s
+  installSer (f { buf := s.buf, at_ := s.c.at_, saved := s.c.saved, stores := [], oob := false, leaves := [] }) s
 
 def serEnvOf (cfg : Cfg) (d : DST) (ertId ts : Nat) (c : Ctx) : SerEnv :=
   { bo := cfg.bo, fast := cfg.fast, uuid := cfg.uuid, dstId := d.id, ertId := ertId, ts := ts,
@@ -127,25 +148,30 @@ def preambleTs (d : DST) (feature : Option Scalar) (s : St) : Nat × St :=
     if s.c.useCurLastEventTs then (s.c.curLastEventTs, s) else cbClock clk s
   | _, _ => (0, s)
 
-/-- `<prefix><dst>_open_packet` l.281-333 -/
-def openPacket (cfg : Cfg) (d : DST) (args : Args) (s : St) : St :=
-  if s.halted then s else
-  let (ts, s) := preambleTs d d.feat.tsBegin s
-  let saved := s.c.inTracingSection
-  if !s.c.isTracingEnabled && !saved then
-    { s with c := { s.c with inTracingSection := false } }
-  else
-  let s := { s with c := { s.c with inTracingSection := true } }
-  if s.c.packetIsOpen then
-    { s with c := { s.c with inTracingSection := saved } }
-  else
-  let s := { s with c := { s.c with at_ := 0 } }
+/-- `open_packet` after both guards: write header and context, mark open -/
+def openWrite (cfg : Cfg) (d : DST) (args : Args) (ts : Nat) (saved : Bool) (s : St) : St :=
+  let s := s.setAt 0
   let env := serEnvOf cfg d 0 ts s.c
   let s := runSer (fun st => serRoot env "pc" d.pcOp args (serRoot env "ph" (DST.phOp cfg) [] st)) s
   if s.halted then s else
   let s := if d.feat.tsBegin.isSome then s.ev (.tsWrite "begin" ts) else s
   let s := s.ev (.opened s.c.at_)
-  { s with c := { s.c with offContent := s.c.at_, packetIsOpen := true, inTracingSection := saved } }
+  ((s.setOffContent s.c.at_).setOpen true).setFlag saved
+
+/-- `open_packet` after the preamble (l.287-333) -/
+def openGuarded (cfg : Cfg) (d : DST) (args : Args) (ts : Nat) (s : St) : St :=
+  let saved := s.c.inTracingSection
+  if !s.c.isTracingEnabled && !saved then s.setFlag false
+  else
+    let s := s.setFlag true
+    if s.c.packetIsOpen then s.setFlag saved
+    else openWrite cfg d args ts saved s
+
+/-- `<prefix><dst>_open_packet` l.281-333 -/
+def openPacket (cfg : Cfg) (d : DST) (args : Args) (s : St) : St :=
+  if s.halted then s else
+  let r := preambleTs d d.feat.tsBegin s
+  openGuarded cfg d args r.1 r.2
 
 /-- one write-back of `close_packet`: `ctx->at = sctx->off_<name>;` then the saved-int template -/
 def writeBack (env : SerEnv) (d : DST) (name : String) (v : Int) (s : St) : St :=
@@ -154,22 +180,11 @@ def writeBack (env : SerEnv) (d : DST) (name : String) (v : Int) (s : St) : St :
   | none => s
   | some w =>
     let off := (s.c.saved.lookup name).getD 0
-    let s := { s with c := { s.c with at_ := off } }
-    runSer (fun st => writeBits env w.sc w.oib v st) s
+    runSer (fun st => writeBits env w.sc w.oib v st) (s.setAt off)
 
-/-- `<prefix><dst>_close_packet` l.337-426 -/
-def closePacket (cfg : Cfg) (d : DST) (s : St) : St :=
-  if s.halted then s else
-  let (ts, s) := preambleTs d d.feat.tsEnd s
-  let saved := s.c.inTracingSection
-  if !s.c.isTracingEnabled && !saved then
-    { s with c := { s.c with inTracingSection := false } }
-  else
-  let s := { s with c := { s.c with inTracingSection := true } }
-  if !s.c.packetIsOpen then
-    { s with c := { s.c with inTracingSection := saved } }
-  else
-  let s := { s with c := { s.c with contentSize := s.c.at_ } }
+/-- `close_packet` after both guards: write-backs, mark closed -/
+def closeWrite (cfg : Cfg) (d : DST) (ts : Nat) (saved : Bool) (s : St) : St :=
+  let s := s.setContentSize s.c.at_
   let env := serEnvOf cfg d 0 ts s.c
   let s := if d.feat.tsEnd.isSome then writeBack env d "timestamp_end" ts s else s
   let s := writeBack env d "content_size" s.c.contentSize s
@@ -177,10 +192,24 @@ def closePacket (cfg : Cfg) (d : DST) (s : St) : St :=
   if s.halted then s else
   let s := if d.feat.tsEnd.isSome then s.ev (.tsWrite "end" ts) else s
   let s := s.ev (.closed s.c.contentSize s.c.sequenceNumber s.c.eventsDiscarded)
-  { s with c := { s.c with
-      at_ := s.c.packetSize, packetIsOpen := false,
-      sequenceNumber := if d.feat.seqNum.isSome then u32 (s.c.sequenceNumber + 1) else s.c.sequenceNumber,
-      inTracingSection := saved } }
+  let s := (s.setAt s.c.packetSize).setOpen false
+  let s := if d.feat.seqNum.isSome then s.setSeqNum (u32 (s.c.sequenceNumber + 1)) else s
+  s.setFlag saved
+
+/-- `close_packet` after the preamble (l.343-426) -/
+def closeGuarded (cfg : Cfg) (d : DST) (ts : Nat) (s : St) : St :=
+  let saved := s.c.inTracingSection
+  if !s.c.isTracingEnabled && !saved then s.setFlag false
+  else
+    let s := s.setFlag true
+    if !s.c.packetIsOpen then s.setFlag saved
+    else closeWrite cfg d ts saved s
+
+/-- `<prefix><dst>_close_packet` l.337-426 -/
+def closePacket (cfg : Cfg) (d : DST) (s : St) : St :=
+  if s.halted then s else
+  let r := preambleTs d d.feat.tsEnd s
+  closeGuarded cfg d r.1 r.2
 
 /-- the platform's open callback: calls the generated opening function with scripted user arguments -/
 def cbOpen (cfg : Cfg) (d : DST) (s : St) : St :=
@@ -188,19 +217,13 @@ def cbOpen (cfg : Cfg) (d : DST) (s : St) : St :=
   let s := cbEnter .open_ s
   let n := s.p.openCount
   let args := if s.p.openArgs.isEmpty then [] else s.p.openArgs.getD (n % s.p.openArgs.length) []
-  let s := { s with p := { s.p with openCount := n + 1 } }
+  let s := s.setPlat { s.p with openCount := n + 1 }
   let s := openPacket cfg d args s
   s.ev (.cbExit .open_ s.c.inTracingSection)
 
-/-- the platform's close callback: calls the generated closing function, hands the buffer to the
-    back end, optionally installs another buffer -/
-def cbClose (cfg : Cfg) (d : DST) (s : St) : St :=
-  if s.halted then s else
-  let s := cbEnter .close s
-  let wasOpen := s.c.packetIsOpen
-  let n := s.p.closeCount
-  let s := { s with p := { s.p with closeCount := n + 1 } }
-  let s := closePacket cfg d s
+/-- what the platform's close callback does after the closing function returned: hand the buffer
+    to the back end, optionally install another buffer -/
+def deliverAndSwap (wasOpen : Bool) (n : Nat) (s : St) : St :=
   if s.halted then s else
   let s := s.ev (.deliver s.buf wasOpen)
   let s := match s.p.setBufs.lookup n with
@@ -208,35 +231,43 @@ def cbClose (cfg : Cfg) (d : DST) (s : St) : St :=
     | none => s
   s.ev (.cbExit .close s.c.inTracingSection)
 
+/-- the platform's close callback -/
+def cbClose (cfg : Cfg) (d : DST) (s : St) : St :=
+  if s.halted then s else
+  let s := cbEnter .close s
+  let wasOpen := s.c.packetIsOpen
+  let n := s.p.closeCount
+  let s := s.setPlat { s.p with closeCount := n + 1 }
+  deliverAndSwap wasOpen n (closePacket cfg d s)
+
 def noSpace (cannotFit : Bool) (s : St) : Bool × St :=
-  (false, { (s.ev (.discard cannotFit)) with c := { s.c with eventsDiscarded := u32 (s.c.eventsDiscarded + 1) } })
+  (false, (s.ev (.discard cannotFit)).setDiscarded (u32 (s.c.eventsDiscarded + 1)))
 
 def withUseCur (f : St → St) (s : St) : St :=
-  let s := { s with c := { s.c with useCurLastEventTs := true } }
-  let s := f s
-  { s with c := { s.c with useCurLastEventTs := false } }
+  (f (s.setUseCur true)).setUseCur false
+
+/-- after the close of `_reserve_er_space`'s second test: ask the back end, reopen, assert (l.222-233) -/
+def reopenAfterClose (cfg : Cfg) (d : DST) (erSize : Nat) (s : St) : Bool × St :=
+  let r := cbFull s
+  if r.1 then noSpace false r.2 else
+  let s := withUseCur (cbOpen cfg d) r.2
+  if erSize ≤ u32 (s.c.packetSize + 4294967296 - s.c.at_) then (true, s)
+  else (true, (s.ev .assertFail).halt)
 
 /-- the tail of `_reserve_er_space` from "Event fits the current packet?" on (l.214-236) -/
 def reserveTail (cfg : Cfg) (d : DST) (erSize : Nat) (s : St) : Bool × St :=
   if s.halted then (false, s) else
   if erSize > u32 (s.c.packetSize + 4294967296 - s.c.at_) then
-    let s := withUseCur (cbClose cfg d) s
-    let (full, s) := cbFull s
-    if full then noSpace false s else
-    let s := withUseCur (cbOpen cfg d) s
-    let s := if erSize ≤ u32 (s.c.packetSize + 4294967296 - s.c.at_) then s
-             else { (s.ev .assertFail) with halted := true }
-    (true, s)
+    reopenAfterClose cfg d erSize (withUseCur (cbClose cfg d) s)
   else (true, s)
 
 /-- `_reserve_er_space` l.190-244, tests in source order -/
 def reserve (cfg : Cfg) (d : DST) (erSize : Nat) (s : St) : Bool × St :=
   if erSize > u32 (s.c.packetSize + 4294967296 - s.c.offContent) then noSpace true s else
   if s.c.isFull then
-    let (full, s) := cbFull s
-    if full then noSpace false s else
-    let s := withUseCur (cbOpen cfg d) s
-    reserveTail cfg d erSize s
+    let r := cbFull s
+    if r.1 then noSpace false r.2 else
+    reserveTail cfg d erSize (withUseCur (cbOpen cfg d) r.2)
   else reserveTail cfg d erSize s
 
 /-- `_commit_er` l.246-256 (no use_cur_last_event_ts bracket) -/
@@ -262,18 +293,11 @@ def serRecord (env : SerEnv) (d : DST) (e : ERT) (args : Args) (st : SerSt) : Se
 /-- the clock sample at the very entry of a tracing function (l.515-519) -/
 def traceClock (d : DST) (s : St) : St :=
   match d.clock with
-  | some clk => let (v, s) := cbClock clk s; { s with c := { s.c with curLastEventTs := v } }
+  | some clk => let r := cbClock clk s; r.2.setCurTs r.1
   | none => s
 
-/-- the tracing function from the test of `is_tracing_enabled` on (l.520-556) -/
-def traceBody (cfg : Cfg) (d : DST) (e : ERT) (args : Args) (s : St) : St :=
-  let s := s.ev (.traceCall e.name s.c.isTracingEnabled)
-  if !s.c.isTracingEnabled then s else
-  let s := { s with c := { s.c with inTracingSection := true } }
-  let erSize := erSizeAt d e args s.c.at_
-  let (ok, s) := reserve cfg d erSize s
-  if s.halted then s else
-  if !ok then { s with c := { s.c with inTracingSection := false } } else
+/-- serialise the record and commit it (l.540-552), after space was reserved -/
+def traceWrite (cfg : Cfg) (d : DST) (e : ERT) (args : Args) (s : St) : St :=
   let env := serEnvOf cfg d e.id s.c.curLastEventTs s.c
   let start := s.c.at_
   let s := runSer (serRecord env d e args) s
@@ -281,8 +305,22 @@ def traceBody (cfg : Cfg) (d : DST) (e : ERT) (args : Args) (s : St) : St :=
   let s := if d.feat.erTs.isSome then s.ev (.tsWrite "rec" s.c.curLastEventTs) else s
   let s := s.ev (.recDone e.name start s.c.at_)
   let s := commit cfg d s
-  if s.halted then s else
-  { s with c := { s.c with inTracingSection := false } }
+  if s.halted then s else s.setFlag false
+
+/-- the tracing function after `_reserve_er_space` returned (l.533-552) -/
+def traceAfterReserve (cfg : Cfg) (d : DST) (e : ERT) (args : Args) (r : Bool × St) : St :=
+  if r.2.halted then r.2 else
+  if !r.1 then r.2.setFlag false else
+  traceWrite cfg d e args r.2
+
+/-- the tracing function after the enable test passed (l.524-556); entered with the flag raised -/
+def traceEnabled (cfg : Cfg) (d : DST) (e : ERT) (args : Args) (s : St) : St :=
+  traceAfterReserve cfg d e args (reserve cfg d (erSizeAt d e args s.c.at_) s)
+
+/-- the tracing function from the test of `is_tracing_enabled` on (l.520-556) -/
+def traceBody (cfg : Cfg) (d : DST) (e : ERT) (args : Args) (s : St) : St :=
+  let s := s.ev (.traceCall e.name s.c.isTracingEnabled)
+  if !s.c.isTracingEnabled then s else traceEnabled cfg d e args (s.setFlag true)
 
 /-- `<prefix><dst>_trace_<ert>` l.508-556.  `args` holds the members of the common context,
     specific context and payload keyed `cc_<n>`, `sc_<n>`, `p_<n>` (the C parameter names). -/
@@ -309,7 +347,7 @@ def stepOp (cfg : Cfg) (d : DST) (op : Op) (s : St) : St :=
       match d.erts.find? (fun (e : ERT) => e.name == en) with
       | some e => ("trace", trace cfg d e args s)
       | none => ("trace", s)
-    | .enable b => ("enable", { s with c := { s.c with isTracingEnabled := b } })
+    | .enable b => ("enable", s.setEnabled b)
     | .query => ("query", s)
   if s.halted then s else s.ev (.ret name s.c s.buf.length)
 
